@@ -275,6 +275,36 @@ def build_props(prop, timeout=1800):
             "theorems": names, "assumptions": assumptions, "problems": problems, "built": built}
 
 
+def run_coqchk(prop, timeout=2400):
+    """Thorough tier: re-check props/<prop>.vo and everything it depends on with the independent
+    checker and read the context summary it prints (-o).  Returns (record, problems)."""
+    t0 = time.time()
+    rc, out = sh(["timeout", str(timeout), "coqchk", "-silent", "-o", *COQ_FLAGS, f"SFV.Props.{prop}"], cwd=COQ)
+    rec = {"cmd": f"coqchk -silent -o -Q theories SFV -Q proofs SFV.P -Q props SFV.Props SFV.Props.{prop}",
+           "exit": rc, "wall_s": round(time.time() - t0, 1)}
+    problems = []
+    summary = out[out.find("CONTEXT SUMMARY"):] if "CONTEXT SUMMARY" in out else ""
+    fields = {}
+    for m in re.finditer(r"\* ([^\n:]+):[ \t]*([^*]*)", summary):
+        fields[m.group(1).strip()] = " ".join(m.group(2).split())
+    rec["context_summary"] = fields
+    if rc != 0 or not summary:
+        problems.append({"kind": "coqchk-failed", "detail": out[-1500:]})
+    else:
+        for key in ("Axioms", "Constants/Inductives relying on type-in-type",
+                    "Constants/Inductives relying on unsafe (co)fixpoints",
+                    "Inductives whose positivity is assumed"):
+            v = fields.get(key)
+            if v is None:
+                problems.append({"kind": "coqchk-summary-unreadable", "detail": summary[:800]})
+                break
+            names = [] if v == "<none>" else v.split()
+            bad = [x for x in names if x not in ALLOWED_AXIOMS]
+            if bad:
+                problems.append({"kind": "coqchk-reports-" + key.split()[0].lower(), "detail": v[:800]})
+    return rec, problems
+
+
 def _compile_shard(path):
     t0 = time.time()
     rc, out = sh(["timeout", "900", "coqc", *COQ_FLAGS, str(path.relative_to(COQ))], cwd=COQ)
